@@ -59,6 +59,7 @@ def tla_set(xs) -> str:
 
 
 _VIOL = re.compile(r'^<<"VIOL", "([^"]+)", "([^"]+)", (-?\d+), "([^"]*)">>')
+_DEV = re.compile(r'^<<"DEV", "([^"]+)", "([^"]+)", (-?\d+), "([^"]*)">>')
 _DONE = re.compile(r'^<<"DONE", "([^"]+)", (\d+)>>')
 _GEN = re.compile(r"^(\d+) states generated, (\d+) distinct states found")
 
@@ -86,7 +87,7 @@ def validate_traces(trace_file: str, module: str, invariants: list[str], workdir
     os.makedirs(workdir, exist_ok=True)
     lines = [ln for ln in open(trace_file) if ln.strip()]
     if not lines:
-        return {"violations": [], "done": {}, "states": 0, "generated": 0, "traces": 0, "wall_s": 0.0}
+        return {"violations": [], "deviations": [], "done": {}, "states": 0, "generated": 0, "traces": 0, "wall_s": 0.0}
     shards = max(1, min(shards, len(lines)))
     # balance by size
     buckets: list[list[str]] = [[] for _ in range(shards)]
@@ -113,6 +114,7 @@ def validate_traces(trace_file: str, module: str, invariants: list[str], workdir
     with ThreadPoolExecutor(max_workers=shards) as ex:
         outs = list(ex.map(lambda j: _run(*j), jobs))
     violations = []
+    deviations = []
     done: dict[str, int] = {}
     states = 0
     generated = 0
@@ -127,6 +129,10 @@ def validate_traces(trace_file: str, module: str, invariants: list[str], workdir
             m = _VIOL.match(ln)
             if m:
                 violations.append((m.group(1), m.group(2), int(m.group(3)), m.group(4)))
+                continue
+            m = _DEV.match(ln)
+            if m:
+                deviations.append((m.group(1), m.group(2), int(m.group(3)), m.group(4)))
                 continue
             m = _DONE.match(ln)
             if m:
@@ -144,7 +150,7 @@ def validate_traces(trace_file: str, module: str, invariants: list[str], workdir
     missing = [t for t in expected_tids if t not in done and t not in rejected]
     if missing:
         raise TLCFailure(f"{len(missing)} traces were not run to their end (e.g. {missing[:3]}); logs in {workdir}")
-    return {"violations": violations, "done": done, "states": states, "generated": generated, "traces": len(lines),
+    return {"violations": violations, "deviations": sorted(set(deviations)), "done": done, "states": states, "generated": generated, "traces": len(lines),
             "wall_s": time.time() - t0}
 
 
